@@ -166,6 +166,7 @@ def check_advance(res: Res, cfg, bus, tag, a: int, m: int, n: int, wit: dict) ->
         except Exception as e:  # noqa: BLE001
             return e
 
+    pa_before = A.physical          # read before advancing: a stale memo of the source's offset must not survive the advance
     B = adv(A, n)
     if isinstance(B, Exception):
         res.violate("advance-raises", f"{tag}: {a:#x}+{n} raised {B!r}", wit)
@@ -180,6 +181,8 @@ def check_advance(res: Res, cfg, bus, tag, a: int, m: int, n: int, wit: dict) ->
             res.violate("ram-has-offset", f"{tag}: {a:#x}+{n} in RAM has offset {B.physical}", wit)
     else:
         pa, pb = A.physical, B.physical
+        if pa != pa_before:
+            res.violate("advance-offset", f"{tag}: offset({a:#x}) changed from {pa_before} to {pa} after an advance", wit)
         if pa is None or pb is None or pb != pa + n:
             res.violate("advance-offset", f"{tag}: offset({a:#x}+{n}) = {pb}, offset({a:#x}) = {pa}", wit)
         if (B.logical_value & 0xFFFF) < r["wlo"] or not rm.same_range(cfg, a, B.logical_value):
